@@ -287,3 +287,27 @@ Lemma run_c04_rejects_l fuel p g v :
   In g (pglobals p) -> In v (ginit g) -> coerce (gty g) v = Fail ERange ->
   run_c04 fuel p = ([], Failed ERange).
 Proof. intros Hg Hv Hc. unfold run_c04. rewrite (check_globals_rejects _ _ _ Hg Hv Hc). reflexivity. Qed.
+
+Lemma check_globals_shape gs : (exists gs', check_globals gs = Val gs') \/ check_globals gs = Fail ERange.
+Proof.
+  induction gs as [|g r IH]; cbn [check_globals]; [left; eauto|]. unfold check_global.
+  destruct (coerce_all_shape (gty g) (ginit g)) as [[ws ->]| ->]; [|right; reflexivity].
+  destruct IH as [[r' ->]| ->]; [left; eauto|right; reflexivity].
+Qed.
+
+Lemma store_inv_run_checked_full_l fuel p :
+  (exists e, check_globals (pglobals p) = Fail e /\ run_c04 fuel p = ([], Failed e)) \/
+  (exists gs, check_globals (pglobals p) = Val gs /\ wf_state (final_state fuel (with_globals p gs)) /\
+              run_c04 fuel p = run fuel (with_globals p gs)).
+Proof.
+  destruct (check_globals_shape (pglobals p)) as [[gs E]|E].
+  - right. exists gs. split; [exact E|]. exact (store_inv_run_checked_l fuel p gs E).
+  - left. exists ERange. split; [exact E|]. unfold run_c04. rewrite E. reflexivity.
+Qed.
+
+Lemma boundary_values_admitted_l t lo hi : range t = Some (lo, hi) ->
+  in_range t lo = true /\ in_range t hi = true /\ in_range t (lo - 1) = false /\ in_range t (hi + 1) = false /\
+  (uns t = true -> lo = 0).
+Proof.
+  destruct t as [b u]. intros H. destruct b, u; cbn in H; try discriminate; injection H as <- <-; vm_compute; repeat split; intros; try reflexivity; try discriminate.
+Qed.
